@@ -273,7 +273,7 @@ func (s *Session) hit(class string, ctx context.Context) faultAction {
 		if s.Cancel != nil {
 			s.Cancel()
 		}
-	case "block":
+	case "block", "blockdl":
 		if ctx != nil {
 			<-ctx.Done()
 		}
